@@ -86,7 +86,13 @@ func (gw *parallelGateway) NextAction(ctx context.Context, flow Flow) chan IActi
 	// buffered: the node sends one action per request and must not block on a token
 	// whose flow is gone (cancelled)
 	response := make(chan IAction, 1)
-	gw.mch <- nextActionMessage{response: response, flow: flow}
+	// the node's goroutine ends with the context: nobody may be left to take the
+	// token, which then leaves on its own cancellation (a nil channel never fires)
+	select {
+	case gw.mch <- nextActionMessage{response: response, flow: flow}:
+	case <-ctx.Done():
+		return nil
+	}
 	return response
 }
 
